@@ -89,7 +89,7 @@ class LintFileLinksStream(base.LintFileStream):
             if not rc.dup_free(c):
                 continue
             n += 1
-            if tier != "thorough" and n % 2:
+            if n % 2:
                 continue
             c = dict(c)
             c["extra"] = [dict(x) for x in c.get("extra", [])]
